@@ -525,6 +525,48 @@ def grid_case(kind, defaults):
   return res
 
 
+STEP_SPELLINGS = ["5e-4", "2.5e-2", "1.5e-4", "5E-2", "25e-3", ".5", "5.e-1", "0.0005", "1e-1", "125e-4"]
+
+
+def spelling_case(triple):
+  """Concrete layer: the step and cutoff may be written in any float notation python accepts (exponent forms, no leading or
+  trailing digit); the grid follows from the value, not from the way it is written."""
+  from atsim.potentials.config import ConfigParser
+  res = new_result("spellings of the step: %s" % triple)
+  _, n_, d_, c_ = TRIPLES[triple]
+  for stxt in STEP_SPELLINGS:
+    for n in (11, 1001, 3001):
+      st = float(stxt)
+      for given in ("n+step", "step+cutoff"):
+        if given == "n+step":
+          text = "[Tabulation]\ntarget : LAMMPS\n%s : %d\n%s : %s\n" % (n_, n, d_, stxt)
+          want_n, want_c = n, (n - 1) * st
+        else:
+          cutoff = (n - 1) * st
+          ctxt = "%.6e" % cutoff
+          cutoff = float(ctxt)
+          text = "[Tabulation]\ntarget : LAMMPS\n%s : %s\n%s : %s\n" % (d_, stxt, c_, ctxt)
+          want_n, want_c = None, cutoff
+        res["paths"] += 1
+        res["replays"] += 1
+        try:
+          tab = ConfigParser(io.StringIO(text)).tabulation
+          got = (tab.nr, tab.cutoff) if triple == "r" else (tab.nrho, tab.cutoff_rho)
+        except Exception as e:  # noqa
+          res["violations"].append(dict(key="spelling-%s-rejected" % triple, desc="%s: %s for\n%s" % (type(e).__name__, e, text), record=dict(kind="logic", model=text)))
+          continue
+        if abs(got[1] - want_c) > 1e-12 * abs(want_c) or (want_n is not None and got[0] != want_n) or (want_n is None and abs(got[0] - 1 - want_c / st) > 0.5):
+          res["violations"].append(dict(key="spelling-%s-%s" % (triple, given), desc="with %s written %r: rows %r cutoff %r, the values give rows %r cutoff %r\n%s" % (
+            d_, stxt, got[0], got[1], want_n if want_n is not None else int(round(want_c / st)) + 1, want_c, text), record=dict(kind="logic", model=text)))
+    if len(res["violations"]) >= 3:
+      break
+  res["vcs"] += 1
+  res["unsat"] += 0 if res["violations"] else 1
+  res["negatives"] += 1
+  res["negatives_ok"] += 1
+  return res
+
+
 def replay_defaults_after(kind):
   """fresh process: a file that gives its grid, then one that leaves it to the defaults, through the public API"""
   from atsim.potentials.config import Configuration
@@ -552,6 +594,8 @@ def cases(tier, seed=0):
     cs.append(Case("fp %s" % tr, fp_case, triple=tr, timeout_s=90 if q else 900))
     for present in [(a, b, c) for a in (False, True) for b in (False, True) for c in (False, True)]:
       cs.append(Case("logic %s %s" % (tr, present), logic_case, triple=tr, present=present))
+  for tr in ("r", "rho"):
+    cs.append(Case("spellings %s" % tr, spelling_case, triple=tr))
   for kind in ("pair", "eam"):
     for d in (True, False, "after"):
       cs.append(Case("grid %s %s" % (kind, d), grid_case, kind=kind, defaults=d))
